@@ -36,19 +36,23 @@ class C01(Check):
                 yield T.mk_case(content, ch, options=[("blksize", "8")], retries=2, events=ev)
         # (b) exhaustive short scripts
         tm = 2 * T.TICKS
-        L = 2 if quick else 3
-        pk = [p for (_, p) in T.PACKET_ALPHABET[:8]] if quick else [p for (_, p) in T.PACKET_ALPHABET]
-        steps = [0, 1, tm - 1, tm, tm + 1] if quick else T.time_steps(tm)
-        for n in (0, 600, 1024):
-            content = bytes(i % 251 for i in range(n))
-            for k in range(0, L + 1):
-                for combo in itertools.product(itertools.product(steps, (0, 1, 2) if quick else (0, 0, 1, 2), pk), repeat=k):
-                    t = 0
-                    ev = []
-                    for (dt, a, p) in combo:
-                        t += dt
-                        ev.append((t, a, p))
-                    yield T.mk_case(content, [], retries=1, events=ev)
+        full_pk = [p for (_, p) in T.PACKET_ALPHABET]
+        if quick:
+            plans = [(2, [0, 1, tm - 1, tm, tm + 1], (0, 1, 2), full_pk[:8], (0, 600, 1024))]
+        else:
+            plans = [(2, T.time_steps(tm), (0, 0, 1, 2), full_pk, (0, 600)),
+                     (3, [0, tm - 1, tm, tm + 1], (0, 1), full_pk[:4] + full_pk[4:6] + [full_pk[8]], (600, 1024))]
+        for (L, steps, addrs, pk, sizes) in plans:
+            for n in sizes:
+                content = bytes(i % 251 for i in range(n))
+                for k in range(0, L + 1):
+                    for combo in itertools.product(itertools.product(steps, addrs, pk), repeat=k):
+                        t = 0
+                        ev = []
+                        for (dt, a, p) in combo:
+                            t += dt
+                            ev.append((t, a, p))
+                        yield T.mk_case(content, [], retries=1, events=ev)
         # (c) random cooperative clients, various block sizes / wraps / faults
         for _ in range(150 if quick else 2500):
             bs = rng.choice([8, 9, 16, 512, 1428])
